@@ -316,6 +316,8 @@ def compare(impl, model, cell=None):
 
 def run(reqs, harness_exe, jobs=8):
     lines = [l for l, _ in reqs]
+    if not lines:
+        return [], []
     rc1, impl, err1 = vlib.run_lines_parallel(harness_exe, lines, jobs)
     rc2, model, err2 = vlib.run_lines_parallel(vlib.DRIVER, lines, jobs)
     if len(impl) != len(lines) or len(model) != len(lines):
